@@ -1,9 +1,9 @@
-# C11 Cookies (request side: Cookie header decoding)
+# C11 Cookies (request side: Cookie header decoding; response side: Set-Cookie build / parse round trip)
 import os, sys
 sys.path.insert(0, os.path.join(os.path.dirname(os.path.abspath(__file__)), "..", "lib"))
 from vf import H, C, M
 
-MODULES = [M("ohkami_lib/src/serde_cookie/de.rs", "harness/C11/cookie_de.rs")]
+MODULES = [M("ohkami_lib/src/serde_cookie/de.rs", "harness/C11/cookie_de.rs"), M("ohkami/src/header/setcookie.rs", "harness/C11/setcookie.rs")]
 CONTRACTS = []
 B = dict(crate="ohkami_lib", strength="bounded", tier="quick", timeout=900)
 F = "serde_cookie::de::"
@@ -13,5 +13,12 @@ HARNESSES = [H(f"c11_cookie_jar_roundtrip_k{k:02d}", functions=[F + "AmpersandSe
     H("c11_cookie_percent_value", functions=[F + "AmpersandSeparated::next_value_seed", F + "valid::value"],
       clauses=["`n=%XY` for all 256 bytes XY: ASCII byte => that byte; otherwise an error (never an invalid string)"], bound="all 256 escapes", **B),
 ]
+DS = ["no directive", "Path + HttpOnly + SameSite=Lax", "Max-Age + Secure", "Domain + Path + Secure + HttpOnly + SameSite=Strict", "Expires + SameSite=None"]
+QUICK_SC = {0, 1, 2, 4, 5, 7, 10, 13}
+HARNESSES += [H(f"c11_setcookie_roundtrip_k{k:02d}", crate="ohkami", strength="bounded", tier="quick" if k in QUICK_SC else "thorough", timeout=1200,
+                functions=["header::setcookie::SetCookieBuilder::build", "header::setcookie::SetCookie::from_raw", "SetCookieBuilder::{new, Path, Domain, MaxAge, Expires, Secure, HttpOnly, SameSite*}"],
+                clauses=["the emitted line is a single line `name=value *( \"; \" directive )` whose value consists of RFC 6265 cookie-octets only",
+                         "from_raw(build(c)) has the value given to the builder (any UTF-8 string of the length: reserved characters, `%`, `;`, `\"`, space, non-ASCII included) and exactly the directives given"],
+                bound=f"value: all valid UTF-8 strings of {k % 3} byte(s); directives: {DS[k // 3]}") for k in range(15)]
 TRUSTED = ["ASSUMED CONTRACTS: percent-encoding crate (spec/percent.rs), core::str::from_utf8 (spec/utf8.rs), alloc::fmt::format stubbed", "serde's &str / String Deserialize impls executed, not specified"]
-ASSUMPTIONS = ["typed structs (serde-derived glue), the request's cookie iterator util::iter_cookies and the Set-Cookie builder / SetCookie::from_raw round trip are NOT under a discharged contract"]
+ASSUMPTIONS = ["typed structs (serde-derived glue), the request's cookie iterator util::iter_cookies are NOT under a discharged contract; Set-Cookie: cookie NAME fixed (`sid`), directive VALUES fixed literals per shape; the byte_reader crate is executed, not specified"]
